@@ -46,7 +46,7 @@ def gen_case(rng, outer_abs):
         if rng.random() < 0.5:
             strip = 0
     full = pre + name
-    style = rng.choice(["create", "modify", "delete", "git-mode", "rename-to", "rename-from", "old-only"])
+    style = rng.choice(["create", "modify", "delete", "git-mode", "rename-to", "rename-from", "old-only", "index-line", "garbage-names"])
     q = (lambda n: quote(n)) if rng.random() < 0.25 else (lambda n: n)
     inner = pre + b"inside.txt"
     if style == "create":
@@ -61,6 +61,12 @@ def gen_case(rng, outer_abs):
         text = b"diff --git " + q(inner) + b" " + q(full) + b"\nsimilarity index 100%\nrename from inside.txt\nrename to " + name + b"\n"
     elif style == "rename-from":
         text = b"diff --git " + q(full) + b" " + q(inner) + b"2\nsimilarity index 100%\nrename from " + name + b"\nrename to inside.txt2\n"
+    elif style == "index-line":
+        # the escaping name only in an Index: line, harmless names that do not exist on the ---/+++ lines
+        text = b"Index: " + full + b"\n===================================================================\n--- " + pre + b"nosuch.c\n+++ " + pre + b"nosuch.c\n@@ -1 +1 @@\n-secret\n+pwned\n"
+    elif style == "garbage-names":
+        # ... or in other lines tools print between file patches
+        text = b"diff -ruN " + full + b" " + full + b"\nOnly in " + full + b": x\n--- " + pre + b"nosuch.c\n+++ " + pre + b"nosuch.c\n@@ -1 +1 @@\n-secret\n+pwned\n"
     else:
         text = b"--- " + q(full) + b"\n+++ " + q(inner) + b"\n@@ -1 +1 @@\n-secret\n+pwned\n"
     series = b"ok.patch\nevil.patch" + (b" -p%d" % strip if strip != 1 or rng.random() < 0.5 else b"") + b"\n"
